@@ -250,6 +250,9 @@ func genRandom(r *kernel.Rand) *kernel.Scenario {
 		// first one: that is the ledger channel's)
 		sc.Faults = append(sc.Faults, kernel.St("subfail", "n", 1+r.Intn(5)))
 	}
+	if r.Bool(0.15) {
+		c["churn"] = 1 // epilogue: one sub-channel is watched and de-registered 70 times in a row
+	}
 	if r.Bool(0.3) {
 		c["lag_burst"] = 1 // epilogue: the client stops reading while more events arrive than the watcher buffers
 	}
